@@ -306,7 +306,7 @@ func zzPinRand() {
 // zzLockStats cannot be observed natively; obligations on it are structural (flag constants).
 func zzLockStats() (int, bool, bool) { return 0, true, true }
 
-// zzOutEdges: the "edges" array of the sequence reply last written to stdout (nil when the last JSON
+// zzOutEdges: the "edges" array of the sequence or plan reply last written to stdout (nil when the last JSON
 // value is not a sequence reply). Natively the bytes on stdout are decoded; symbolically the value
 // handed to writeJSON is read.
 func zzOutEdges() []sequenceEdgeOutput {
@@ -317,13 +317,16 @@ func zzOutEdges() []sequenceEdgeOutput {
 			return nil
 		}
 		var so sequenceOutput
-		if json.Unmarshal(raw, &so) != nil || so.Kind != "sequence" {
+		if json.Unmarshal(raw, &so) != nil || (so.Kind != "sequence" && so.Kind != "plan") {
 			return nil
 		}
 		return so.Edges
 	}
 	if so, ok := v.(sequenceOutput); ok {
 		return so.Edges
+	}
+	if po, ok := v.(planOutput); ok {
+		return po.Edges
 	}
 	return nil
 }
